@@ -13,8 +13,12 @@ ASSUMPTIONS = A01 + [
     "each binary file is exactly the concatenation of its FABs (OnDisk): ghost position function P(j), P(0)=0, "
     "P(m)=size; instantiated at the loop counter",
     "exactly-once across files follows from OnDisk (each box's FAB lies in exactly one file): spec-level lemma",
+    "LevelDataIterator: the per-call contract of __next__ over the abstract state (file f, p consumed) is proved; that "
+    "successive calls enumerate the concatenation is the (spec-level) induction over that state machine",
+    "every binary file named by a level header holds at least one FAB (NBF >= 1)",
 ]
-TRUSTED = T01 + ["multiprocessing.Pool.imap yields f(x) for x in xs in submission order (pool contract, assumed)"]
+TRUSTED = T01 + ["multiprocessing.Pool.imap yields f(x) for x in xs in submission order (pool contract, assumed)",
+                 "numpy: np.unique(x) is a duplicate-free enumeration of the values of x"]
 
 
 class Scanner(Reader):
@@ -82,7 +86,8 @@ def tasks(tier):
             out.append(Scanner("mp_read_bfile_slice_field", nd, f))
         for f in ("list1", "list2", "list3") + (("listN",) if tier == "thorough" else ()):
             out.append(Scanner("mp_read_bfile_index_field", nd, f))
-    return out
+    from props.C15_api import api_tasks
+    return out + api_tasks(tier)
 
 
 def canaries(tier):
@@ -93,7 +98,8 @@ def canaries(tier):
           ("bfile index: trailing skip uses first index",
            [(f, "bf.seek(np.prod(shape[:-1]) * (shape[-1] - args[1][-1] - 1) * 8, 1)",
              "bf.seek(np.prod(shape[:-1]) * (shape[-1] - args[1][0] - 1) * 8, 1)")], ["mp_read_bfile_index_field[nd=3,list2]"])]
-    return cs
+    from props.C15_api import api_canaries
+    return cs + api_canaries()
 
 
 SCENARIO_TIMEOUT = 240
